@@ -12,11 +12,20 @@ def handleFileOps (args : List SExp) : String :=
     | _, _ => "bad-args"
   | _ => "bad-args"
 
+def handlePrim (cmd : String) (args : List SExp) : String :=
+  match cmd, args.mapM SExp.bytes? with
+  | "aesenc", some [k, b] => toHexW (Prim.aesEnc k b)
+  | "aesdec", some [k, b] => toHexW (Prim.aesDec k b)
+  | "sha256", some [d] => toHexW (Prim.sha256 d)
+  | "sha1", some [d] => toHexW (Prim.sha1 d)
+  | _, _ => "bad-args"
+
 def handle (line : String) : String :=
   match SExp.parse line with
   | some (.list (.atom cmd :: args)) =>
     match cmd with
     | "fileops" => handleFileOps args
+    | "aesenc" | "aesdec" | "sha256" | "sha1" => handlePrim cmd args
     | "ping" => "pong"
     | _ => "bad-cmd"
   | _ => "bad-line"
